@@ -7,7 +7,7 @@ import plotgen as G
 from common import fb, close, canon_hash
 
 ID = "C19"
-SECTIONS = []
+SECTIONS = ["ops"]
 LEAN_MODULES = ["QExPy.Props.C19"]
 THEOREMS = ["QExPy.Plot.C19_mask", "QExPy.Plot.C19_mask_none", "QExPy.Plot.C19_dataset_draw",
             "QExPy.Plot.C19_linspace", "QExPy.Plot.C19_band", "QExPy.Plot.C19_function_range",
